@@ -1,8 +1,9 @@
 (* Witness.v — C10 "witnesses authorise exactly this transaction": SPECIFICATION and MODEL (no proofs).
 
    SPEC   Module Ledger: the key hashes whose witnesses a Conway transaction needs (UTXOW rule,
-          witsVKeyNeeded + the key leaves of the native scripts that are shipped), over an abstract
-          transaction description [txdesc].
+          witsVKeyNeeded + the key leaves of the native scripts that are shipped in the witness set
+          or that the transaction needs and finds in the output of a reference input / spent input),
+          over an abstract transaction description [txdesc].
    MODEL  pycardano/txbuilder.py (TransactionBuilder): _required_signer_vkey_hashes, _input_vkey_hashes,
           _certificate_vkey_hashes, _vote_vkey_hashes, _withdrawal_vkey_hashes, _native_scripts_vkey_hashes,
           _build_required_vkeys, _witness_count, _build_fake_vkey_witnesses and the witness loop of
@@ -35,6 +36,7 @@ Definition set_eqb (a b : list bytes) : bool := subsetb a b && subsetb b a.
 (* ------------------------------------------------------------------ transaction descriptions *)
 Inductive cred := KeyH (h : bytes) | ScriptH (h : bytes).
 Definition cred_keys (c : cred) : list bytes := match c with KeyH h => [h] | ScriptH _ => [] end.
+Definition cred_scripts (c : cred) : list bytes := match c with KeyH _ => [] | ScriptH h => [h] end.
 
 Inductive nscript :=
 | NsPubkey (h : bytes)                    (* [0, key hash] *)
@@ -75,6 +77,9 @@ Record txdesc := mkTx {
   d_collateral : list cred;         (* ... of every collateral UTxO *)
   d_required_signers : list bytes;  (* body field 14 *)
   d_native_scripts : list nscript;  (* native scripts shipped in the witness set (key 1) *)
+  d_ref_scripts : list nscript;     (* native scripts carried by the outputs of the reference inputs (body field 18) and of
+                                       the spent inputs: Babbage/Conway refScripts *)
+  d_mint : list bytes;              (* policy ids of body field 9 *)
   d_certs : list cert;              (* body field 4 *)
   d_withdrawals : list cred;        (* credential of every reward account in body field 5 *)
   d_voters : list voter             (* keys of body field 19 *)
@@ -112,10 +117,40 @@ Module Ledger.
     | VoterPool h => [h]
     end.
 
-  Definition required_key_hashes (d : txdesc) : list bytes :=
+  (* script hashes the transaction must run (scriptsNeeded): script-locked inputs, minting policies, script
+     credentials of certificates (getScriptWitnessConwayTxCert: not the legacy registration, not pool certificates),
+     script reward accounts, script voters *)
+  Definition cert_scripts (c : cert) : list bytes :=
+    match c with
+    | StakeRegistration _ => []
+    | StakeDeregistration c | StakeDelegation c
+    | StakeRegistrationConway c | StakeDeregistrationConway c | VoteDelegation c
+    | StakeAndVoteDelegation c | StakeRegistrationAndDelegation c
+    | StakeRegistrationAndVoteDelegation c
+    | StakeRegistrationAndDelegationAndVoteDelegation c => cred_scripts c
+    | PoolRegistration _ _ | PoolRetirement _ => []
+    | AuthCommitteeHotCertificate cold _ | ResignCommitteeColdCertificate cold => cred_scripts cold
+    | RegDRepCert c | UnregDRepCertificate c | UpdateDRepCertificate c => cred_scripts c
+    end.
+  Definition voter_scripts (v : voter) : list bytes :=
+    match v with
+    | VoterCommitteeHot c | VoterDRep c => cred_scripts c
+    | VoterPool _ => []
+    end.
+  Definition scripts_needed (d : txdesc) : list bytes :=
+    flat_map cred_scripts (d_inputs d) ++ d_mint d ++ flat_map cert_scripts (d_certs d)
+    ++ flat_map cred_scripts (d_withdrawals d) ++ flat_map voter_scripts (d_voters d).
+
+  (* a native script that is not in the witness set still has to validate when the transaction needs it and
+     finds it in a reference / spent output; SH = script hash (BLAKE2b-224 of 0x00 || CBOR), a parameter *)
+  Definition ref_scripts_needed (SH : nscript -> bytes) (d : txdesc) : list nscript :=
+    filter (fun s => memb (SH s) (scripts_needed d)) (d_ref_scripts d).
+
+  Definition required_key_hashes (SH : nscript -> bytes) (d : txdesc) : list bytes :=
     flat_map cred_keys (d_inputs d) ++ flat_map cred_keys (d_collateral d)
     ++ d_required_signers d
     ++ flat_map ns_leaves (d_native_scripts d)
+    ++ flat_map ns_leaves (ref_scripts_needed SH d)
     ++ flat_map cert_keys (d_certs d)
     ++ flat_map cred_keys (d_withdrawals d)
     ++ flat_map voter_keys (d_voters d).
@@ -130,18 +165,76 @@ Record bdesc := mkB {
   b_required_signers : list bytes;    (* self.required_signers (None = []) *)
   b_native_scripts : list nscript;    (* the FIELD self.native_scripts *)
   b_attached : list nscript;          (* native scripts held in _inputs_to_scripts / _minting_script_to_redeemers /
-                                         _withdrawal_script_to_redeemers / _certificate_script_to_redeemers;
+                                         _withdrawal_script_to_redeemers / _certificate_script_to_redeemers, however they
+                                         were supplied (script object, reference UTxO, the spent UTxO itself, context lookup);
                                          all_scripts = field ++ these (one per script hash) *)
+  b_reference_scripts : list nscript; (* self._reference_scripts: scripts that add_script_input / add_*_script took from a
+                                         UTxO other than the spent one (that UTxO went to self.reference_inputs) *)
+  b_input_scripts : list nscript;     (* i.output.script for i in self.inputs, when present *)
+  b_refin_scripts : list nscript;     (* i.output.script for the UTxOs i in self.reference_inputs, when present *)
+  b_mint : list bytes;                (* policy ids of self.mint *)
   b_certs : list cert;
   b_withdrawals : list cred;          (* Address.from_primitive(k) of every key of self.withdrawals *)
   b_voters : list voter;
   b_witness_override : option N
 }.
 
+(* the property all_scripts (a dict keyed by script hash: compared as a set) *)
+Definition all_scripts (b : bdesc) : list nscript := b_native_scripts b ++ b_attached b.
+Definition hash_in (SH : nscript -> bytes) (l : list nscript) (s : nscript) : bool := memb (SH s) (map SH l).
+(* the property scripts: all_scripts minus every script whose hash is the hash of a member of _reference_scripts *)
+Definition scripts (SH : nscript -> bytes) (b : bdesc) : list nscript :=
+  filter (fun s => negb (hash_in SH (b_reference_scripts b) s)) (all_scripts b).
+(* build_witness_set(remove_dup_script=True): self.scripts minus the scripts the spent inputs carry themselves *)
+Definition witness_scripts (SH : nscript -> bytes) (b : bdesc) : list nscript :=
+  filter (fun s => negb (hash_in SH (b_input_scripts b) s)) (scripts SH b).
+
 (* the transaction such a builder emits, as the ledger sees it *)
-Definition tx_of (b : bdesc) : txdesc :=
-  mkTx (b_inputs b) (b_collateral b) (b_required_signers b) (b_native_scripts b ++ b_attached b)
+Definition tx_of (SH : nscript -> bytes) (b : bdesc) : txdesc :=
+  mkTx (b_inputs b) (b_collateral b) (b_required_signers b) (witness_scripts SH b)
+       (b_input_scripts b ++ b_refin_scripts b) (b_mint b)
        (b_certs b) (b_withdrawals b) (b_voters b).
+
+(* Two conditions on how reference scripts are used with the builder (decidable: refs_registeredb / refs_usedb).
+   registered: a native script the transaction needs and finds in a spent / reference output was given to the builder
+               through add_script_input / add_*_script (and not by writing to reference_inputs behind its back);
+   used:       a script the builder keeps out of the witness set because a UTxO supplies it is indeed carried by a
+               spent / reference output and serves a purpose of this transaction. *)
+Definition refs_registered (SH : nscript -> bytes) (b : bdesc) : Prop :=
+  forall s, In s (b_input_scripts b ++ b_refin_scripts b) ->
+            In (SH s) (Ledger.scripts_needed (tx_of SH b)) -> In s (all_scripts b).
+Definition refs_used (SH : nscript -> bytes) (b : bdesc) : Prop :=
+  forall s, In s (all_scripts b) -> In (SH s) (map SH (b_reference_scripts b ++ b_input_scripts b)) ->
+            In s (b_input_scripts b ++ b_refin_scripts b) /\ In (SH s) (Ledger.scripts_needed (tx_of SH b)).
+
+Section ListEq.
+  Variable A : Type.
+  Variable f : A -> A -> bool.
+  Fixpoint list_eqb (l l' : list A) : bool :=
+    match l, l' with
+    | [], [] => true
+    | x :: r, y :: r' => f x y && list_eqb r r'
+    | _, _ => false
+    end.
+End ListEq.
+Arguments list_eqb {A} f l l'.
+Fixpoint ns_eqb (a b : nscript) : bool :=
+  match a, b with
+  | NsPubkey h, NsPubkey h' => bytes_eqb h h'
+  | NsAll l, NsAll l' | NsAny l, NsAny l' => list_eqb ns_eqb l l'
+  | NsNofK n l, NsNofK n' l' => (n =? n') && list_eqb ns_eqb l l'
+  | NsInvalidBefore s, NsInvalidBefore s' | NsInvalidHereafter s, NsInvalidHereafter s' => s =? s'
+  | _, _ => false
+  end.
+Definition ns_memb (s : nscript) (l : list nscript) : bool := existsb (ns_eqb s) l.
+Definition refs_registeredb (SH : nscript -> bytes) (b : bdesc) : bool :=
+  forallb (fun s => implb (memb (SH s) (Ledger.scripts_needed (tx_of SH b))) (ns_memb s (all_scripts b)))
+          (b_input_scripts b ++ b_refin_scripts b).
+Definition refs_usedb (SH : nscript -> bytes) (b : bdesc) : bool :=
+  forallb (fun s => implb (hash_in SH (b_reference_scripts b ++ b_input_scripts b) s)
+                          (ns_memb s (b_input_scripts b ++ b_refin_scripts b)
+                           && memb (SH s) (Ledger.scripts_needed (tx_of SH b))))
+          (all_scripts b).
 
 Definition required_signer_vkey_hashes (b : bdesc) : list bytes := b_required_signers b.
 
@@ -180,9 +273,10 @@ Fixpoint ns_dfs (s : nscript) : list bytes :=
   | NsAll l | NsAny l | NsNofK _ l => flat_map ns_dfs l
   | NsInvalidBefore _ | NsInvalidHereafter _ => []
   end.
-(* for script in self.all_scripts: if isinstance(script, NativeScript) *)
+(* for script in self.all_scripts: if isinstance(script, NativeScript) — ALL of them, also those that stay out of
+   the witness set because a reference UTxO or the spent UTxO supplies them *)
 Definition native_scripts_vkey_hashes (b : bdesc) : list bytes :=
-  flat_map ns_dfs (b_native_scripts b ++ b_attached b).
+  flat_map ns_dfs (all_scripts b).
 
 Definition builder_required (b : bdesc) : list bytes :=
   input_vkey_hashes b ++ required_signer_vkey_hashes b ++ native_scripts_vkey_hashes b
@@ -255,6 +349,7 @@ Fixpoint oset_wits (seen l : list wit) : list wit :=
   end.
 
 Section Sign.
+  Variable SH : nscript -> bytes.                      (* script_hash: BLAKE2b-224 of 0x00 || CBOR of the native script *)
   Variable H28 : bytes -> bytes.                       (* BLAKE2b-224 *)
   Variable H32 : bytes -> bytes.                       (* BLAKE2b-256 *)
   Variable ord_pub : bytes -> bytes.                   (* NaCl: seed -> 32-byte verification key *)
@@ -290,25 +385,31 @@ Section Sign.
 
   (* build_and_sign(signing_keys, auto_required_signers=auto, force_skeys=force) on a builder whose fields are b
      and whose body serializes to body_bytes: the vkey witnesses of the returned transaction.
-     Two steps may fill required_signers first (scenarios of this model have native scripts only, so
-     self.scripts / self.all_scripts are non-empty exactly when one of the two script lists is):
+     Two steps may fill required_signers first (scenarios of this model have native scripts only):
        build_and_sign: auto_required_signers and self.scripts and not self.required_signers
-                       -> every given key becomes a required signer;
-       build:          is_smart and auto_required_signers is not False and self.required_signers is None
-                       -> the key hashes of inputs and collateral. *)
+                       -> every given key becomes a required signer (self.scripts: reference scripts do not count);
+       build:          is_smart (= bool(self.all_scripts): reference scripts DO count) and auto_required_signers is not
+                       False and self.required_signers is None -> the key hashes of inputs and collateral.
+     (When _reference_scripts is non-empty and no collateral was given, _set_collateral_return afterwards picks
+      collateral among self.inputs; that adds no key hash to the required set and is not modelled.) *)
   Definition set_required_signers (b : bdesc) (rs : list bytes) : bdesc :=
     mkB (b_inputs b) (b_collateral b) rs (b_native_scripts b) (b_attached b)
+        (b_reference_scripts b) (b_input_scripts b) (b_refin_scripts b) (b_mint b)
         (b_certs b) (b_withdrawals b) (b_voters b) (b_witness_override b).
   Definition after_auto (auto : option bool) (keys : list skey) (b : bdesc) : bdesc :=
-    let has_scripts := negb (match b_native_scripts b ++ b_attached b with [] => true | _ => false end) in
+    let is_smart := negb (match all_scripts b with [] => true | _ => false end) in
+    let has_scripts := negb (match scripts SH b with [] => true | _ => false end) in
     let unset := match b_required_signers b with [] => true | _ => false end in
-    if has_scripts && unset then
+    if unset then
       match auto with
-      | Some true => match keys with
-                     | [] => b                       (* required_signers = [] : not None, left alone by build *)
-                     | _ => set_required_signers b (map key_hash keys)
-                     end
-      | None => set_required_signers b (input_vkey_hashes b)
+      | Some true =>
+          if has_scripts then
+            match keys with
+            | [] => b                       (* required_signers = [] : not None, left alone by build *)
+            | _ => set_required_signers b (map key_hash keys)
+            end
+          else if is_smart then set_required_signers b (input_vkey_hashes b) else b
+      | None => if is_smart then set_required_signers b (input_vkey_hashes b) else b
       | Some false => b
       end
     else b.
